@@ -350,7 +350,16 @@ def _reconnect_cases():
                         yield {"noise": noise, "login": True, "flow": flow, "K": 8.0, "final_at": 300.0, "on_stop_reconnect": n, "events": [{**ev, "at": at}]}
 
 
+def _stream_cases():
+    """A multi-message request on an established session whose final message never comes while the device keeps
+    sending its intermediate messages (every 1-9 s, for 100 s): the call still ends at its 60 s timeout."""
+    for noise in (False, True):
+        for every in (1.0, 2.0, 9.0):
+            yield {"noise": noise, "login": True, "flow": "connect", "K": 32.0, "final_at": 160.0, "events": [{"do": "stream_list", "at": 64, "every": every, "n": int(100 / every)}]}
+
+
 def enumerated(tier):
+    yield from _stream_cases()
     yield from _reconnect_cases()
     yield from _first_cause_cases(tier)
     yield from _disconnect_during_hung_connect_cases()
